@@ -3,6 +3,7 @@ import JediModel.Lemmas.Tree
 import JediModel.Model.Names
 import JediModel.Model.ParsoPos
 import JediModel.Model.ScriptParse
+import JediModel.Model.DefRange
 import JediModel.Gen.C17
 open Lean Proto JediModel.Text JediModel.Tree JediModel.Names JediModel.ParsoPos
 
@@ -67,6 +68,31 @@ def handle (j : Json) : Json :=
       | .script .., none => jstr "no-file"
       | .parse .., none => jstr "no-file"
       | _, _ => .null)
+  | "defrange" =>
+    -- get_definition_start_position / get_definition_end_position on the leaves of the definition node
+    let lv : List LeafInfo := (arr j "leaves").zipIdx.map fun (l, i) =>
+      match asArr l with
+      | [t, p, v] => ⟨i + 1, asStr t, (asStr p).toList, (asStr v).toList⟩
+      | _ => ⟨i + 1, "?", [], []⟩
+    let p0 : Pos := match asArr (j.getObjValD "p") with
+      | [l, c] => ⟨asNat l, asNat c⟩
+      | _ => ⟨1, 0⟩
+    let cfg : JediModel.DefRange.Cfg :=
+      { scopeTypes := JediModel.Gen.C17.defRangeScopeTypes, newlineType := JediModel.Gen.C17.defRangeNewlineType,
+        usesPreviousLeafEnd := JediModel.Gen.C17.defRangeUsesPreviousLeafEnd }
+    let sp := JediModel.DefRange.spans p0 lv
+    let before : Option JediModel.DefRange.Span := match asArr (j.getObjValD "before") with
+      | [t, sl, sc, el, ec] => some ⟨⟨0, asStr t, [], []⟩, ⟨asNat sl, asNat sc⟩, ⟨asNat el, asNat ec⟩⟩
+      | _ => Option.none
+    match sp[nat j "name"]? with
+    | Option.none => jobj [("error", jstr "name index")]
+    | some nm =>
+      let hasDef := bool j "hasdef"
+      let d := if hasDef then some sp else Option.none
+      jobj [("name", jarr [posJson nm.start, posJson nm.stop]),
+            ("start", match JediModel.DefRange.defStart nm d with | some q => posJson q | Option.none => .null),
+            ("end", match JediModel.DefRange.defEnd cfg (str j "type") nm before d with
+              | some q => posJson q | Option.none => .null)]
   | "textat" =>
     match textFrom (splitLines (chars j "text")) ⟨nat j "line", nat j "col"⟩ with
     | some s => jchars (s.take (nat j "n"))
